@@ -32,7 +32,10 @@ PROP = dict(
     nontrivial=_nontrivial,
     # jsonq prints the schedule the consumer observed (nondeterministic); the judge replays the Lean queue model on it
     corr_skip=lambda op, impl, model: op.startswith("jsonq "),
-    rule="ops run the REAL datasources in-process (Creator = schema inference, Materialize, Run) on a file rendered from the op "
+    rule="`pq` lines: a parquet file of 6 columns (required Int / Float / String, optional Int, two repeated columns of 0-100 elements) is WRITTEN by the harness "
+         "with the repository's own parquet-go and READ BACK through the real datasource under column masks; expected = the rows written "
+         "(reconstruct.go is not modelled in Lean: differential only). "
+         "ops run the REAL datasources in-process (Creator = schema inference, Materialize, Run) on a file rendered from the op "
          "line: `json` files of 0,1,2,3,5,63,64,65,99,100,101,127,128,129,130,200,257,1000 rows over random column profiles "
          "(numbers incl. exponents and >2^53, strings with quotes/backslashes/control characters/non-BMP/invalid UTF-8, RFC3339 "
          "times, nulls, nested arrays and objects, missing keys, permuted key order; rendering with \\u escapes, surrogate "
